@@ -1,0 +1,72 @@
+//go:build verif
+
+// Contracts for the verif build tag: //@ comment blocks read by /verif/gocv.
+
+package pebbles
+
+import (
+	"github.com/vektah/gqlparser/v2/ast"
+)
+
+// ValidQuery: the query text parses and validates against the schema (decided by
+// gqlparser.LoadQuery, which is outside the verified code).
+func ValidQuery(schema *ast.Schema, query string) bool { panic("ghost") }
+
+//@ extern github.com/vektah/gqlparser/v2 LoadQuery
+//@ returns doc, errs
+//@ ensures (base(errs) == 0) == ValidQuery(schema, str)
+//@ ensures base(errs) == 0 ==> doc != nil
+//@ ensures base(errs) != 0 ==> len(errs) >= 1
+//@ modifies fresh
+//@ end
+
+//@ func (*Gateway).queryHandler$1
+//@ props C08 C10 C07
+//@ returns res, err
+//@ requires g != nil && rs != nil && 0 <= index && index < len(rs.Requests) && rs.Requests[index] != nil
+//@ requires g.planner != nil && g.executor != nil && g.queryerFactory != nil && g.schema != nil
+//@ modifies fresh, entries(map[string]interface{}), elems(interface{}), entries(map[planner.hashKey]*planner.QueryPlan), entries(map[planner.hashKey]time.Time)
+//@ ensures[index] err == nil && res != nil && res.index == index
+//@ ensures[invalid] !ValidQuery(g.schema, rs.Requests[index].Query) ==> res.Data == nil && len(res.Errors) >= 1
+//@ ensures[fresh] fresh(res)
+//@ end
+
+//@ func (*Gateway).queryHandler$2
+//@ props C08
+//@ requires value != nil && 0 <= value.index && value.index < len(acc)
+//@ ensures[len] len(result) == len(acc)
+//@ ensures[place] result[value.index] == value
+//@ ensures[others] forall(k, 0, len(acc), k != value.index ==> result[k] == old(acc[k]))
+//@ modifies acc[*]
+//@ end
+
+//@ func (*Gateway).queryHandler
+//@ props C08 C07
+//@ requires g != nil && r != nil && w != nil && g.planner != nil && g.executor != nil && g.queryerFactory != nil && g.schema != nil
+//@ fold 0 invariant[len] len(acc) == len(rs.Requests)
+//@ fold 0 invariant[slots] forall(k, 0, n, done(k) ==> acc[k] != nil && acc[k].index == k)
+//@ end
+
+//@ func (Results).Emit
+//@ props C08 C07
+//@ requires w != nil
+//@ requires !isBatch ==> len(rs) >= 1
+//@ end
+
+//@ func (*Gateway).getQueryers
+//@ props C07
+//@ requires g != nil && g.queryerFactory != nil
+//@ modifies-assumed fresh
+//@ end
+
+//@ func (*Gateway).parseIntrospectionQuery
+//@ props C07
+//@ requires g != nil && plan != nil && request != nil
+//@ ensures[fresh] result != nil ==> fresh(result)
+//@ modifies-assumed fresh
+//@ end
+
+//@ func emitError
+//@ props C07
+//@ requires w != nil
+//@ end
